@@ -91,7 +91,10 @@ ASSUMPTIONS = [
     'description the way _start_pilot_bulk does before it calls '
     '_prepare_pilot; `project` is always given',
     'constructors of launch methods, schedulers and executors are replaced by '
-    'no-ops; only the name -> class lookup of the factories is judged']
+    'no-ops; only the name -> class lookup of the factories is judged',
+    'radical.utils.write_json (site-packages, outside the repository) leaves '
+    'one descriptor open per agent config written; the harness closes the '
+    'descriptors of rp.agent_cfg.* files after every case (hygiene, no verdict)']
 SHARDS   = {'quick': 8, 'thorough': 16}
 TIMEOUT  = {'quick': 240, 'thorough': 3000}
 REQUIRED = {'cells_enumerated'     : 150,
@@ -647,7 +650,7 @@ def classify(case, exp):
     return kinds
 
 
-def run_sizing(session, lc, case, res, read_file=True):
+def run_sizing(session, lc, case, res):
     '''
     case: resource, schema, override (dict | None), env_smt, size
     fills in the node layout actually used and judges the outcome
